@@ -72,7 +72,8 @@ class Summary:
         return out
 
     def stores(self, attr=None):
-        return [e for e in self.events if e.kind == "store" and (attr is None or e.attr == attr)]
+        """stores into <x>.attr - also those made through a local name bound to the attribute (`verts = self.vertices; verts[i] = v`)"""
+        return [e for e in self.events if e.kind == "store" and (attr is None or e.attr == attr or getattr(e, "alias_attr", None) == attr)]
 
     def calls(self, fname=None):
         return [e for e in self.events if e.kind == "call" and (fname is None or e.fname == fname or
@@ -97,6 +98,8 @@ class Eval:
         self.summary = Summary(func)
         self.abstract = set(abstract)     # locals kept symbolic ('$name'); their definitions go to summary.defs
         self.kwargs_name = None
+        self._tc = T.FALSE
+        self.alias = {}                   # local name -> attribute term it was bound to (`edges = self.ownEdges`)
         a = func.node.args
         names = [x.arg for x in a.posonlyargs + a.args + a.kwonlyargs]
         for n in names:
@@ -136,6 +139,7 @@ class Eval:
         g0 = len(self.guard)
         status = None
         for i, st in enumerate(stmts):
+            n0, r0, gp = len(self.summary.events), len(self.summary.returns), len(self.guard)
             if isinstance(st, ast.If):
                 status, absorbed = self.s_If(st, stmts[i + 1:])
                 if absorbed:
@@ -144,8 +148,28 @@ class Eval:
                 status = self.stmt(st)
             if status:
                 break
+            if i + 1 < len(stmts):
+                self.guard_after_exits(n0, r0, gp)
         del self.guard[g0:]
         return status
+
+    def guard_after_exits(self, n0, r0, gp):
+        """a statement that fell through may still have left the function on some of its paths (`if a: if b: return x`): what follows
+        runs under the negation of those paths.  Exits inside a loop or a try of the statement are not expressible and are ignored."""
+        paths = []
+        exits = [g for g, _, _ in self.summary.returns[r0:]] + [e.guard for e in self.summary.events[n0:] if e.kind == "raise"]
+        for g in exits:
+            extra = g[gp:]
+            if tuple(g[:gp]) != tuple(self.guard[:gp]) or any(x[0] in ("loop", "while", "except", "try") for x in extra):
+                continue
+            if not extra:
+                continue
+            paths.append(T.b_and(*extra))
+        if not paths:
+            return
+        for c in T.conjuncts(T.b_not(T.b_or(*paths))):
+            if c not in self.guard and c != T.TRUE:
+                self.guard.append(c)
 
     def gblock(self, g, stmts):
         """block under one more guard entry"""
@@ -216,12 +240,23 @@ class Eval:
                 self.emit("del", st, base=self.ev(t), key=None, attr=self._attr_name(t))
         return None
 
+    def _alias_attr(self, node):
+        """the attribute a local container name stands for (`verts = self.vertices`), or None"""
+        while isinstance(node, ast.Subscript):
+            node = node.value
+        if isinstance(node, ast.Name):
+            v = self.alias.get(node.id)
+            if isinstance(v, tuple) and v[0] == "attr" and isinstance(v[2], str):
+                return v[2]
+        return None
+
     def _attr_name(self, node):
         while isinstance(node, ast.Subscript):
             node = node.value
         if isinstance(node, ast.Attribute):
             return node.attr
         if isinstance(node, ast.Name):
+            # a local that is just another name for an attribute (`verts = self.vertices`): the store goes to the attribute
             return "$" + node.id
         return None
 
@@ -229,6 +264,13 @@ class Eval:
         v = self.ev(st.value)
         for t in st.targets:
             self.assign(t, v, st)
+        # `name = obj.attr`: the local is another name for the attribute's container (until it is re-bound); a mutation through it
+        # is a mutation of the attribute
+        if len(st.targets) == 1 and isinstance(st.targets[0], ast.Name):
+            if isinstance(st.value, ast.Attribute) and not isinstance(st.value.value, ast.Call):
+                self.alias[st.targets[0].id] = T.attr(self.ev(st.value.value), st.value.attr)
+            else:
+                self.alias.pop(st.targets[0].id, None)
         return None
 
     def s_AnnAssign(self, st):
@@ -244,6 +286,7 @@ class Eval:
 
     def assign(self, target, v, st, aug=False):
         if isinstance(target, ast.Name):
+            self.alias.pop(target.id, None)
             # `x = a if c else b` is `if c: x = a  else: x = b`: one guarded assignment event per arm (the bound value stays the choice)
             def assign_split(val):
                 if val[0] == "phi" and not aug:
@@ -297,7 +340,7 @@ class Eval:
                             self.guard.pop()
                 else:
                     self.emit("store", st, target=T.idx(base, key), base=base, attr=self._attr_name(target.value),
-                              key=key, value=val, sub=True, aug=aug)
+                              key=key, value=val, sub=True, aug=aug, alias_attr=self._alias_attr(target.value))
             store_split(v)
             upd = ("upd", base, key, v)
             if isinstance(target.value, ast.Name):
@@ -371,6 +414,16 @@ class Eval:
         return out
 
     @staticmethod
+    def rebound_names(stmts):
+        """names that are (re)bound, not merely mutated through a method or an element store"""
+        out = set()
+        for st in stmts:
+            for n in ast.walk(st):
+                if isinstance(n, ast.Name) and isinstance(n.ctx, (ast.Store, ast.Del)):
+                    out.add(n.id)
+        return out
+
+    @staticmethod
     def assigned_names(stmts):
         out = set()
         for st in stmts:
@@ -387,6 +440,7 @@ class Eval:
     def bind_target(self, target, elem):
         """bind loop / comprehension target names to (components of) the element term"""
         if isinstance(target, ast.Name):
+            self.alias.pop(target.id, None)
             self.env[target.id] = elem
         elif isinstance(target, (ast.Tuple, ast.List)):
             for i, e in enumerate(target.elts):
@@ -403,7 +457,9 @@ class Eval:
         it = self.ev(st.iter)
         L = self.fresh()
         bv = ("bv", L)
-        carried = sorted(n for n in self.assigned_names(st.body) if n in self.env)
+        rebound = self.rebound_names(st.body)
+        # a local that names an attribute's container and is only mutated in the body is not loop-carried: the attribute is (heap)
+        carried = sorted(n for n in self.assigned_names(st.body) if n in self.env and not (n in self.alias and n not in rebound))
         init = {n: self.env[n] for n in carried}
         heap0 = dict(self.heap)
         for n in carried:
@@ -609,7 +665,8 @@ class Eval:
 
     def s_While(self, st):
         L = self.fresh()
-        carried = sorted(n for n in self.assigned_names(st.body) if n in self.env)
+        rebound = self.rebound_names(st.body)
+        carried = sorted(n for n in self.assigned_names(st.body) if n in self.env and not (n in self.alias and n not in rebound))
         init = {n: self.env[n] for n in carried}
         for n in carried:
             self.env[n] = ("lc", n, L)
@@ -732,6 +789,8 @@ class Eval:
         return T.sym(repr(v))
 
     def e_Name(self, n):
+        if n.id in self.alias and self.alias[n.id] in self.heap:
+            return self.heap[self.alias[n.id]]          # the aliased container with the mutations made since
         if n.id in self.env:
             return self.env[n.id]
         d = self.repo.dotted(n, self.func.module)
@@ -1141,7 +1200,9 @@ class Eval:
         return simplify_call(fname, recv, args, kw)
 
     def set_place(self, holder, new):
-        if isinstance(holder, ast.Name):
+        if isinstance(holder, ast.Name) and holder.id in self.alias and self.alias[holder.id][0] == "attr":
+            self.heap[self.alias[holder.id]] = new
+        elif isinstance(holder, ast.Name):
             self.env[holder.id] = new
         elif isinstance(holder, ast.Attribute):
             self.heap[T.attr(self.ev(holder.value), holder.attr)] = new
